@@ -39,6 +39,8 @@ pub struct Profile {
     pub alloc_heavy: bool,
     /// allow string element assignment (U10 discipline applied)
     pub str_mut: bool,
+    /// C12: call arguments are wrapped in a tracing identity `spoor(id, v)` so that evaluation order is visible
+    pub trace_args: bool,
 }
 
 impl Profile {
@@ -60,6 +62,7 @@ impl Profile {
             rec_depth: 5,
             alloc_heavy: false,
             str_mut: true,
+            trace_args: false,
         }
     }
     pub fn scopes() -> Profile {
@@ -72,7 +75,7 @@ impl Profile {
         Profile { name: "control", max_depth: 5, floats: false, strings: false, fault: 15, ..Profile::general() }
     }
     pub fn calls() -> Profile {
-        Profile { name: "calls", max_depth: 4, floats: false, fault: 15, rec_depth: 8, ..Profile::general() }
+        Profile { name: "calls", max_depth: 4, floats: false, fault: 15, rec_depth: 8, trace_args: true, ..Profile::general() }
     }
     pub fn alloc() -> Profile {
         Profile { name: "alloc", alloc_heavy: true, fault: 30, ..Profile::general() }
@@ -191,6 +194,9 @@ impl<'a, 'b> Gen<'a, 'b> {
             }
         }
         out.retain(|v| !self.forbidden.contains(&v.name) && !v.dead);
+        // a function whose body is being generated is neither called nor passed around from inside that body
+        // (other than through the controlled recursive call), otherwise recursion would not be bounded by construction
+        out.retain(|v| !(matches!(v.ty, Ty::Fun(..)) && self.in_progress.contains(&v.name)));
         out
     }
 
@@ -324,7 +330,8 @@ impl<'a, 'b> Gen<'a, 'b> {
                 let m = self.p.rec_depth;
                 args.push(int(self.t.range(0, m)));
             } else {
-                args.push(self.expr(p, d - 1));
+                let a = self.expr(p, d - 1);
+                args.push(self.traced(a));
             }
         }
         if is_rec {
@@ -348,10 +355,21 @@ impl<'a, 'b> Gen<'a, 'b> {
                 let m = self.p.rec_depth;
                 args.push(int(self.t.range(0, m)));
             } else {
-                args.push(self.expr(p, d.saturating_sub(1)));
+                let a = self.expr(p, d.saturating_sub(1));
+                args.push(self.traced(a));
             }
         }
         calln(&f.name, args)
+    }
+
+    /// C12: wraps an argument into the tracing identity
+    fn traced(&mut self, e: Expr) -> Expr {
+        if self.p.trace_args && self.t.maybe(150) {
+            self.uniq += 1;
+            calln("spoor", vec![int(self.uniq as i64), e])
+        } else {
+            e
+        }
     }
 
     fn index_expr(&mut self, elem: &Ty, d: usize) -> Option<Expr> {
@@ -983,7 +1001,11 @@ impl<'a, 'b> Gen<'a, 'b> {
         self.fault_left = self.t.maybe(self.p.fault);
         let n = 1 + self.t.below(self.p.max_top_stmts);
         let d = self.p.max_depth;
-        let mut prog = self.stmts(n, d);
+        let mut prog = Vec::new();
+        if self.p.trace_args {
+            prog.push(es(func("spoor", &["id", "v"], vec![es(calln("print", vec![string("s{}"), ident("id")])), es(ident("v"))])));
+        }
+        prog.extend(self.stmts(n, d));
         // final expression: one value, or an array collecting several variables (result graph with sharing)
         let vis: Vec<Var> = self.visible().into_iter().filter(|v| !matches!(v.ty, Ty::Null)).collect();
         let fin = if vis.len() >= 2 && self.t.maybe(150) {
